@@ -151,6 +151,16 @@ func (r *vfQrDmRun) finish() {
 		}
 	}
 	r.cm.Close()
+	for _, ru := range []*reuse{r.cm.reuseUDP4, r.cm.reuseUDP6} {
+		// (a Close that left a pool running: stop its GC goroutine so that the bubble can be left)
+		if ru != nil {
+			select {
+			case <-ru.gcStopChan:
+			default:
+				vfQrGuard(func() { ru.Close() })
+			}
+		}
+	}
 	r.ctr.Close()
 	r.csock.Close()
 	synctest.Wait()
